@@ -173,7 +173,7 @@ func CheckC13(opt C13Options) int {
 
 	nProj, faultPer, fine := 1500, 2, 5
 	if opt.Tier == "thorough" {
-		nProj, faultPer, fine = 60000, 3, 15
+		nProj, faultPer, fine = 16000, 3, 15
 	}
 	const maxY = 150_000_000
 
@@ -256,7 +256,7 @@ func CheckC13(opt C13Options) int {
 			continue
 		}
 		r := core.Sub(opt.Seed, "c13", "faults", i)
-		if !r.Chance(2, 5) && opt.Tier != "thorough" {
+		if !r.Chance(2, 5) {
 			continue
 		}
 		kinds := core.SortedKeys(o.Sim.FaultSites)
